@@ -197,6 +197,16 @@ def run(ctx):
     f = ctx.f
     scope = [b for b in f.body_list if in_scope(b)]
     ctx.floor('PANIC', 'functions in schema::', len(scope), 80)
+    # the key a caller gets for "the root" is the key of node 0: the node every consumer (freeze, rendering, fingerprint,
+    # (de)serializers) starts from
+    rk_ = [b for b in f.body_list if b.j['kind'] != 'closure' and fn_label(b) == 'schema::safe::SchemaKey::root']
+    okr_ = False
+    for b in rk_:
+        for bb in b.live_blocks():
+            for s_ in b.stmts(bb):
+                if 'assign' in s_ and s_['assign']['l'] == 0 and s_['rv']['k'] == 'agg' and (s_['rv'].get('adt') or '').endswith('SchemaKey'):
+                    okr_ = [const_int(o_) for o_ in s_['rv']['ops']] == [0]
+    ctx.ob('KEYBOUNDS', 'root-key-is-node-zero', okr_, short_loc(rk_[0].span) if rk_ else None, 'SchemaKey::root() is SchemaKey { idx: 0 }: %s' % okr_, nontrivial=False)
 
     # ---- direct recursions
     rec = []
@@ -470,6 +480,10 @@ def name_index_rule(ctx, scope):
                                 ils.add(sp_['l'])
                                 grew_ = True
             for mb, mt in muts:
+                if strip_generics(cname(mt)).endswith('String::remove') and (len(mt['args']) < 2 or const_int(mt['args'][1]) != 0):
+                    # ".x" is {namespace: None, name: "x"}: what is removed is the leading dot, at index 0
+                    ok = False
+                    why.append('String::remove at an index other than the constant 0 (the leading dot)')
                 # after this edit, on the way to the aggregate, the index local is overwritten with None
                 resets = []
                 for xb in b.reachable_from(b.term(mb)['target']):
